@@ -512,7 +512,8 @@ unsafe fn scripted(d: &mut Drv) {
     let all: [(usize, bool, bool, bool); 6] = [(0, false, true, false), (0, false, false, false), (1, false, true, true), (1, true, true, true), (0, true, true, false), (1, true, false, true)];
     // under Miri every key event with suggestions costs tens of seconds (regex compilation is interpreted):
     // the small mode keeps the three suggestions-off set-ups and one short suggestions-on word
-    let setups: &[(usize, bool, bool, bool)] = if d.small { &all[..4] } else { &all[..] };
+    let setups: &[(usize, bool, bool, bool)] = if d.small { &all[..std::env::var("FFIDRV_SETUPS").ok().and_then(|s| s.parse().ok()).unwrap_or(4)] } else { &all[..] };
+    let mut scripted_ctx: Option<*mut RitiContext> = None;
     for &(li, sugg, ansi, karorder) in setups {
         d.call("riti_config_new");
         let c = riti_config_new();
@@ -532,12 +533,30 @@ unsafe fn scripted(d: &mut Drv) {
         riti_config_set_fixed_old_kar_order(c, karorder);
         d.call("riti_config_set_suggestion_include_english");
         riti_config_set_suggestion_include_english(c, true);
-        d.call("riti_context_new_with_config");
-        let ctx = riti_context_new_with_config(c);
-        d.next_ctx += 1;
-        d.ctxs.push(LiveCtx { ptr: ctx, id: d.next_ctx, fixed: li != 0, ansi, on_screen: 0, highlight: 0 });
+        // one context for the whole pass (creating a context is the expensive part under Miri: the emoji tables and the
+        // parsers are built by interpreted code); the other set-ups are reached by update_engine while idle
+        let ctx = match scripted_ctx {
+            None => {
+                d.call("riti_context_new_with_config");
+                let ctx = riti_context_new_with_config(c);
+                d.next_ctx += 1;
+                d.ctxs.push(LiveCtx { ptr: ctx, id: d.next_ctx, fixed: li != 0, ansi, on_screen: 0, highlight: 0 });
+                scripted_ctx = Some(ctx);
+                ctx
+            }
+            Some(ctx) => {
+                d.call("riti_context_update_engine");
+                riti_context_update_engine(ctx, c);
+                let xi = d.ctxs.iter().position(|x| x.ptr == ctx).unwrap();
+                d.ctxs[xi].fixed = li != 0;
+                d.ctxs[xi].ansi = ansi;
+                d.ctxs[xi].on_screen = 0;
+                d.ctxs[xi].highlight = 0;
+                ctx
+            }
+        };
         d.cfgs.push(LiveCfg { ptr: c, usable: true, fixed: li != 0, ansi });
-        let xi = d.ctxs.len() - 1;
+        let xi = d.ctxs.iter().position(|x| x.ptr == ctx).unwrap();
         // words chosen so that the pre-edit text differs in length from the candidate under ANSI (e-kar, conjuncts, ASCII),
         // a left-standing sign first (empty auxiliary text while it is pending), punctuation, and a backspace to empty
         let words: [&[u16]; 5] = [&[0xA0A0, 0xA09A], &[0xA09E, 0xA0A0], &[0xA096, 0xA0A2, 0xA09E], &[0x0034], &[0xA0A0, 0x0035, 0xA0A0, 0x001A]];
